@@ -1,3 +1,55 @@
 package main
 
-func (e *Engine) frameUnits(spec string) []frameUnit { return nil }
+import (
+	"go/types"
+	"sort"
+	"strings"
+)
+
+// frameUnits synthesises a read-only contract (modifies nothing: every write must target memory allocated
+// during the call) for every exported method of the named receiver type, so that a newly added method is
+// covered without annotation (C16).
+func (e *Engine) frameUnits(spec string) []frameUnit {
+	// spec: "pkgname.(*T)" optionally followed by ",pkgname.Func" entries
+	var out []frameUnit
+	for _, item := range strings.Split(spec, ",") {
+		item = strings.TrimSpace(item)
+		if !strings.Contains(item, "(") {
+			if fn := e.findFunc(item); fn != nil {
+				out = append(out, frameUnit{fn, &FuncContract{Header: "func " + item + " [synthesised read-only frame]", Name: fn.Name(), Aspect: "readonly", HasMod: true, Loops: map[int]*LoopSpec{}}})
+			}
+			continue
+		}
+		i := strings.Index(item, ".")
+		pkgName := item[:i]
+		tn := strings.Trim(item[i+1:], "(*)")
+		for path, sp := range e.spkgs {
+			if sp.Pkg.Name() != pkgName || !(path == e.modPath || strings.HasPrefix(path, e.modPath+"/")) {
+				continue
+			}
+			o := sp.Pkg.Scope().Lookup(tn)
+			if o == nil {
+				continue
+			}
+			pt := types.NewPointer(o.Type())
+			ms := types.NewMethodSet(pt)
+			var names []string
+			for j := 0; j < ms.Len(); j++ {
+				m := ms.At(j).Obj()
+				if m.Exported() {
+					names = append(names, m.Name())
+				}
+			}
+			sort.Strings(names)
+			for _, n := range names {
+				fn := e.prog.LookupMethod(pt, sp.Pkg, n)
+				if fn == nil || fn.Synthetic != "" {
+					continue
+				}
+				fc := &FuncContract{Header: "func (*" + tn + ") " + n + " [synthesised read-only frame]", Name: n, RecvType: "*" + tn, Aspect: "readonly", HasMod: true, Loops: map[int]*LoopSpec{}, PkgPath: path}
+				out = append(out, frameUnit{fn, fc})
+			}
+		}
+	}
+	return out
+}
